@@ -39,6 +39,26 @@ def _eq(a, b):
     return bool(r) and type(a) is type(b)
 
 
+def _close(a, b):
+    """numeric agreement within the C01 tolerance, ignoring int/float and container type: used where
+    a conversion between the alias and the current symbol itself is involved (one side takes the
+    same-unit shortcut, the other the unit's function pair)"""
+    import numpy
+
+    if hasattr(a, "GetQuantity") and hasattr(b, "GetQuantity"):
+        if a.GetQuantity() != b.GetQuantity() or type(a) is not type(b):
+            return False
+        a = a.GetValue() if hasattr(a, "GetValue") and not hasattr(a, "GetValues") else a.GetValues()
+        b = b.GetValue() if hasattr(b, "GetValue") and not hasattr(b, "GetValues") else b.GetValues()
+    if isinstance(a, (list, tuple, numpy.ndarray)) and isinstance(b, (list, tuple, numpy.ndarray)):
+        return len(a) == len(b) and all(_close(x, y) for x, y in zip(a, b))
+    try:
+        fa, fb = float(a), float(b)
+    except (TypeError, ValueError):
+        return _eq(a, b)
+    return core.close(fa, fb, abs(fa) + abs(fb), 1e-12, 1e-290)  # denormals underflow in the function pair
+
+
 class Checker:
     def __init__(self, ctx, db):
         self.ctx = ctx
@@ -149,14 +169,11 @@ class Checker:
                 except Exception as e:
                     ctx.record("legacy_spelling_rejected:%s" % name, case, "%s with legacy spelling %r raised %s: %s; the current spelling %r gives %r" % (name, l, type(e).__name__, str(e)[:160], u, want))
                     continue
-                if name.startswith("~"):
-                    # a conversion between the alias and the current symbol itself is involved: one goes through
-                    # the same-unit shortcut, the other through the unit's function pair (C01 tolerance)
-                    gv = list(got.GetValues()) if hasattr(got, "GetValues") else [got]
-                    wv = list(want.GetValues()) if hasattr(want, "GetValues") else [want]
-                    same = len(gv) == len(wv) and all(core.close(p, q, abs(p) + abs(q), 1e-12) for p, q in zip(gv, wv))
-                    if hasattr(got, "GetQuantity"):
-                        same = same and got.GetQuantity() == want.GetQuantity()
+                if name.startswith("~") or w == u:
+                    # a conversion between the alias and the current symbol itself is involved (always for the
+                    # "~" entries, and for every converting entry when the partner unit w is the current symbol):
+                    # one side takes the same-unit shortcut, the other the unit's function pair (C01 tolerance)
+                    same = _close(got, want)
                 else:
                     same = _eq(got, want)
                 if not same:
